@@ -139,6 +139,7 @@ def run(module: str, cfg_text: str, *, workers=16, simulate: str | None = None, 
     generated = distinct = depthv = 0
     errors = []
     tail = []
+    marks = []
     cov = {}
     with open(out_path, errors="replace") as f, open(cases_path, "w") as cf:
         for line in f:
@@ -150,6 +151,9 @@ def run(module: str, cfg_text: str, *, workers=16, simulate: str | None = None, 
                     raise Machinery(f"unparseable case line from TLC: {line[:200]} ({e})")
                 cf.write(inner + "\n")
                 ncases += 1
+                continue
+            if line.startswith('<<"'):
+                marks.append(line.strip())
                 continue
             tail.append(line.rstrip("\n"))
             if len(tail) > 400:
@@ -180,7 +184,7 @@ def run(module: str, cfg_text: str, *, workers=16, simulate: str | None = None, 
             raise Machinery(f"TLC failed on {module} (rc={rc}):\n" + "\n".join(tail[-60:]))
     d = dict(ok=ok, rc=rc, generated=generated, distinct=distinct, depth=depthv, ncases=ncases,
              cases_path=str(cases_path) if ncases else None, errors=errors, tail=text_tail, wall=wall,
-             coverage=cov, cached=False, module=module, cfg=cfg_text, run_dir=str(run_dir), key=key)
+             coverage=cov, marks=marks, cached=False, module=module, cfg=cfg_text, run_dir=str(run_dir), key=key)
     if ok or errors:
         meta.write_text(json.dumps(d))
     if ok:
